@@ -233,6 +233,10 @@ Inductive cstmt :=
 | SOvf (t : cty) (e : cexpr) (sflag uflag : option cexpr) (* result = e; flags assigned *)
 | SLoad (val_t mem_t : cty)                             (* result(val_t) = *(mem_t * ) addr *)
 | SStore (mem_t : cty) (e : cexpr)                      (* *(mem_t * ) addr = e *)
+| SOvfB (o : cbinop) (t : cty) (e1 e2 : cexpr) (flagvar : nat) (store : bool)
+    (* flagvar = __builtin_{add,sub,mul}_overflow (e1, e2, (t * ) &dst): GCC semantics = the operation on
+       the operands' values in infinite precision, converted to t; flag = that conversion changed the
+       value.  store = false: dst is a scratch object, only the flag is kept *)
 | SNone                                                 (* construct present but emits nothing *)
 | SUnknown (text : string).                             (* translator could not parse: no semantics *)
 
@@ -266,6 +270,26 @@ Definition stmt_ovf (env : list Z) (s : cstmt) : option (Z * option bool * optio
       | Some a, Some fs, Some fu =>
           match assign t a with Some r => Some (r, fs, fu) | None => None end
       | _, _, _ => None
+      end
+  | _ => None
+  end.
+
+Definition exact_binop (o : cbinop) (x y : Z) : option Z :=
+  match o with Oadd => Some (x + y) | Osub => Some (x - y) | Omul => Some (x * y) | _ => None end.
+
+(* (pattern written to dst [low ty_bits t bits meaningful], flag variable, flag value, dst is the result?) *)
+Definition stmt_ovfb (env : list Z) (s : cstmt) : option (Z * nat * bool * bool) :=
+  match s with
+  | SOvfB o t e1 e2 fv st =>
+      match ceval env e1, ceval env e2 with
+      | Some (t1, x), Some (t2, y) =>
+          if is_int t1 && is_int t2 && is_int t then
+            match exact_binop o x y with
+            | Some z => Some (uwrap 64 (wrap_ty t z), fv, negb ((ty_min t <=? z) && (z <=? ty_max t)), st)
+            | None => None
+            end
+          else None
+      | _, _ => None
       end
   | _ => None
   end.
